@@ -243,6 +243,76 @@ pub fn probe_iterators<K: KeyT, V: ValT>(rebuild: &dyn Fn() -> MapSut<K, V>, sut
             }
             count += 3;
         }
+        // Debug of the collection and of every iterator at position j lists exactly the elements not yet yielded
+        if j <= n {
+            let marks = |text: String, marker: &str| text.matches(marker).count();
+            let check = |what: &str, text: String, keys_want: usize, vals_want: usize| -> Result<(), String> {
+                let (k, v) = (marks(text.clone(), "K#"), marks(text, "V#"));
+                if (k, v) != (keys_want, vals_want) {
+                    return Err(format!("Debug of {what} after {j} of {n} items lists {k} keys and {v} values, expected {keys_want} / {vals_want}"));
+                }
+                let errs = env::take_errors();
+                if !errs.is_empty() {
+                    return Err(format!("Debug of {what} after {j} of {n} items: {}", errs.join("; ")));
+                }
+                Ok(())
+            };
+            let r = n - j;
+            if j == 0 {
+                check("the map", format!("{:?}", sut.map), n, n)?;
+            }
+            macro_rules! adv {
+                ($it:expr) => {{
+                    let mut it = $it;
+                    for _ in 0..j {
+                        it.next();
+                    }
+                    it
+                }};
+            }
+            check("iter()", format!("{:?}", adv!(sut.map.iter())), r, r)?;
+            check("keys()", format!("{:?}", adv!(sut.map.keys())), r, 0)?;
+            check("values()", format!("{:?}", adv!(sut.map.values())), 0, r)?;
+            check("iter_mut()", format!("{:?}", adv!(sut.map.iter_mut())), r, r)?;
+            check("values_mut()", format!("{:?}", adv!(sut.map.values_mut())), 0, r)?;
+            {
+                let mut s = rebuild();
+                let m = std::mem::take(&mut s.map);
+                let mut it = m.into_iter();
+                let taken: Vec<(K, V)> = (0..j).filter_map(|_| it.next()).collect();
+                check("into_iter()", format!("{:?}", it), r, r)?;
+                drop(taken);
+                drop(it);
+                s.finish().map_err(|m| format!("after Debug of into_iter(): {m}"))?;
+                let mut s = rebuild();
+                let m = std::mem::take(&mut s.map);
+                let mut it = m.into_keys();
+                let taken: Vec<K> = (0..j).filter_map(|_| it.next()).collect();
+                check("into_keys()", format!("{:?}", it), r, 0)?;
+                drop(taken);
+                drop(it);
+                s.finish().map_err(|m| format!("after Debug of into_keys(): {m}"))?;
+                let mut s = rebuild();
+                let m = std::mem::take(&mut s.map);
+                let mut it = m.into_values();
+                let taken: Vec<V> = (0..j).filter_map(|_| it.next()).collect();
+                check("into_values()", format!("{:?}", it), 0, r)?;
+                drop(taken);
+                drop(it);
+                s.finish().map_err(|m| format!("after Debug of into_values(): {m}"))?;
+                let mut s = rebuild();
+                {
+                    let mut it = s.map.drain();
+                    let taken: Vec<(K, V)> = (0..j).filter_map(|_| it.next()).collect();
+                    // (the taken elements are dropped first: a Debug that walks their old slots then meets dead elements)
+                    drop(taken);
+                    check("drain()", format!("{:?}", it), r, r)?;
+                }
+                s.model.clear();
+                s.finish().map_err(|m| format!("after Debug of drain(): {m}"))?;
+            }
+            count += 10;
+        }
         // nth(k): within range, exactly to the end, and overshooting
         if j <= n {
             let r = n - j;
